@@ -1,4 +1,5 @@
 import GitSizer.Proofs.Parsers
+import GitSizer.Proofs.ParsersExact
 /-! # C16 — Object parsers are lossless and total
     Theorems about the statement-by-statement models of git/tree.go, git/obj_head_iter.go,
     git/commit.go, git/tag.go, git/batch_header.go, git/reference.go (every Go slice or index
@@ -52,6 +53,71 @@ theorem F5_witness_truncated :
 /-- non-vacuity: a two-entry tree with a space, a newline and a high byte in the names -/
 example : parseTree (Spec.serTree [⟨0o100644, [97, 32, 98], List.replicate 20 7⟩, ⟨0o40000, [10, 200], List.replicate 20 0⟩])
     = .ok [⟨0o100644, [97, 32, 98], List.replicate 20 7⟩, ⟨0o40000, [10, 200], List.replicate 20 0⟩] := by
+  decide +kernel
+
+/-- **commits parse exactly**: for EVERY well-formed commit object (`Spec.CommitObj.OK`: 20-byte
+    ids; after the parent lines any header lines whatever, in any order — extra headers spelt
+    `parent …`/`tree …`, signatures and merge tags whose continuation lines imitate headers; with or
+    without a message of arbitrary bytes) the parser returns exactly the tree, the parents in order,
+    and the length — never text from the message, a continuation line or an extra header. -/
+theorem commit_exact (c : Spec.CommitObj) (ok : c.OK) :
+    parseCommit (Spec.serCommit c) = .ok ⟨clamp c32 (Spec.serCommit c).length, c.parents, c.tree⟩ :=
+  parseCommit_serCommit c ok
+
+/-- **tags parse exactly**: likewise the tagged object and the type text of the first two lines -/
+theorem tag_exact (t : Spec.TagObj) (ok : t.OK) :
+    parseTag (Spec.serTag t) = .ok ⟨clamp c32 (Spec.serTag t).length, t.object, t.type⟩ :=
+  parseTag_serTag t ok
+
+/-- non-vacuity: an octopus-less merge commit whose extra headers and message imitate headers -/
+def demoCommit : Spec.CommitObj :=
+  { tree := List.replicate 20 1, parents := [List.replicate 20 2, List.replicate 20 3],
+    extra := [⟨[97, 117, 116, 104, 111, 114], [65]⟩,                       -- author A
+              ⟨kParent, Spec.hexEncode (List.replicate 20 9)⟩,             -- extra header "parent 0909…"
+              ⟨[103, 112, 103, 115, 105, 103], [45, 45]⟩,                  -- gpgsig --
+              ⟨[], kTree ++ [32] ++ Spec.hexEncode (List.replicate 20 8)⟩, -- continuation " tree 0808…"
+              ⟨kTree, [120]⟩],                                             -- extra header "tree x"
+    message := some (kParent ++ [32, 120, 10, 10] ++ kTree ++ [32, 121, 10]) }
+
+theorem demoCommit_ok : demoCommit.OK := by
+  refine ⟨by decide, ?_, ?_, ?_⟩
+  · intro p hp; simp only [demoCommit, List.mem_cons, List.not_mem_nil, or_false] at hp
+    rcases hp with rfl | rfl <;> decide
+  · intro l hl; simp only [demoCommit, List.mem_cons, List.not_mem_nil, or_false] at hl
+    rcases hl with rfl | rfl | rfl | rfl | rfl <;> exact ⟨by decide, by decide, by decide⟩
+  · intro l hl; simp only [demoCommit, List.head?_cons, Option.some.injEq] at hl; subst hl; exact ⟨by decide, by decide⟩
+
+example : parseCommit (Spec.serCommit demoCommit) =
+    .ok ⟨clamp c32 (Spec.serCommit demoCommit).length, [List.replicate 20 2, List.replicate 20 3], List.replicate 20 1⟩ :=
+  commit_exact demoCommit demoCommit_ok
+
+/-- F6 (repaired in /repo by a `fix:` commit): before the repair the same object was rejected
+    ("multiple trees"), and a lone extra `parent` header was counted — `commitStreamOld` is the loop
+    as it was -/
+def commitStreamOld : Nat → Bytes → List Bytes → Option Bytes → Res (List Bytes × Option Bytes)
+  | 0, _, ps, t => .ok (ps.reverse, t)
+  | fuel + 1, data, ps, t =>
+    if data.isEmpty then .ok (ps.reverse, t) else
+    match nextHeader data with
+    | .err c => .err c
+    | .panic c => .panic c
+    | .ok (k, v, rest) =>
+      if k = kParent then
+        match Go.newOID v with
+        | none => .err "bad-parent"
+        | some o => commitStreamOld fuel rest (o :: ps) t
+      else if k = kTree then
+        match t with
+        | some _ => .err "multiple-trees"
+        | none =>
+          match Go.newOID v with
+          | none => .err "bad-tree"
+          | some o => commitStreamOld fuel rest ps (some o)
+      else commitStreamOld fuel rest ps t
+
+theorem F6_witness :
+    commitStreamOld 100 (Spec.serLines ({ demoCommit with extra := demoCommit.extra.take 2 } : Spec.CommitObj).lines) [] none =
+      .ok ([List.replicate 20 2, List.replicate 20 3, List.replicate 20 9], some (List.replicate 20 1)) := by
   decide +kernel
 
 end GitSizer.C16
